@@ -5,6 +5,7 @@ import (
 	"go/ast"
 	"go/parser"
 	"go/token"
+	"go/types"
 	"os"
 	"path/filepath"
 	"strconv"
@@ -136,6 +137,57 @@ func facts(w *strings.Builder) error {
 		}
 		return m
 	}())
+	// 2b. the input keying material is the secret itself at every step: the expression handed to
+	// hkdf.New, the first argument of every deriveSessionKey / second of every deriveClaimKeyInfo call,
+	// and every assignment to a variable named secret in the claim files
+	ikm := []string{"deriveSessionKey:hkdf.New(" + types.ExprString(hk[0].Args[1]) + ")"}
+	if fd := fn(inh, "deriveSessionKey"); fd != nil && fd.Type.Params != nil && len(fd.Type.Params.List) > 0 && len(fd.Type.Params.List[0].Names) > 0 {
+		ikm = append(ikm, "deriveSessionKey:param0="+fd.Type.Params.List[0].Names[0].Name)
+		// the parameter must not be reassigned inside
+		ast.Inspect(fd.Body, func(n ast.Node) bool {
+			if as, ok := n.(*ast.AssignStmt); ok {
+				for _, l := range as.Lhs {
+					if id, ok := l.(*ast.Ident); ok && id.Name == fd.Type.Params.List[0].Names[0].Name {
+						ikm = append(ikm, "deriveSessionKey:reassigns-param")
+					}
+				}
+			}
+			return true
+		})
+	}
+	for _, f := range []*ast.File{cs, cm} {
+		for _, d := range f.Decls {
+			fd, ok := d.(*ast.FuncDecl)
+			if !ok || fd.Body == nil {
+				continue
+			}
+			for _, c := range calls(fd, "deriveSessionKey") {
+				if len(c.Args) > 0 {
+					ikm = append(ikm, fd.Name.Name+":deriveSessionKey("+types.ExprString(c.Args[0])+")")
+				}
+			}
+			for _, c := range calls(fd, "deriveClaimKeyInfo") {
+				if len(c.Args) > 1 {
+					ikm = append(ikm, fd.Name.Name+":deriveClaimKeyInfo(_, "+types.ExprString(c.Args[1])+")")
+				}
+			}
+			ast.Inspect(fd.Body, func(n ast.Node) bool {
+				if as, ok := n.(*ast.AssignStmt); ok {
+					for i, l := range as.Lhs {
+						if id, ok := l.(*ast.Ident); ok && id.Name == "secret" {
+							rhs := as.Rhs[0]
+							if i < len(as.Rhs) && len(as.Rhs) == len(as.Lhs) {
+								rhs = as.Rhs[i]
+							}
+							ikm = append(ikm, fd.Name.Name+":secret"+as.Tok.String()+types.ExprString(rhs))
+						}
+					}
+				}
+				return true
+			})
+		}
+	}
+
 	// 3. grammar: which strings functions find the '#' and the ']' in ParseClaimIDStrict
 	var grammar []string
 	ps := fn(cs, "ParseClaimIDStrict")
@@ -199,6 +251,7 @@ func facts(w *strings.Builder) error {
 	fmt.Fprintf(w, "Definition kdf_salt : bytes := %s.\n", h(salt))
 	fmt.Fprintf(w, "Definition kdf_info : bytes := %s.\n", h(info))
 	fmt.Fprintf(w, "Definition claim_key_lens : list bytes := %s.\n", hl(lens))
+	fmt.Fprintf(w, "Definition key_material_flow : list bytes := %s.\n", hl(ikm))
 	fmt.Fprintf(w, "Definition strict_grammar_calls : list bytes := %s.\n", hl(grammar))
 	fmt.Fprintf(w, "Definition cipher_rewrites : list bytes := %s.\n", hl(rewrites))
 	fmt.Fprintf(w, "Definition ft_prefix : bytes := %s.\n", h(ftPrefix))
